@@ -14,6 +14,9 @@
    (truncation_rejected; root_element_end d and firstn_N are defined in Proofs/TruncMain.v).  (5) Soundness over
    Unicode (in_fragment_u, Proofs/CstSoundU.v: valid UTF-8, no CR, '&', ':', '<!D', '<![', '<?xml', 'xmlns', no leading
    BOM): every accepted input is the rendering of a well-formed document of Spec/CstU.v (parse_sound_fragment_u).
+   (6) Soundness with references and CDATA (in_fragment_t, Proofs/CstSoundT.v: printable ASCII / TAB / LF, '&' and
+   '<![' allowed, numeric references denote scalar values -- the documented U+FFFD leniency excluded): every accepted input
+   is the rendering of a well-formed document of Spec/CstText.v, with NO condition on the result (parse_sound_fragment_t).
    Statements are pinned here (copied verbatim from the proof files by tools/pin_props.py);
    each is re-proved by `exact` and followed by Print Assumptions. *)
 From Coq Require Import Ascii String.
@@ -23,8 +26,8 @@ From RX Require Import Generated.
 From RX.Model Require Import Base CharClass Stream Tokenizer Doc Builder Parse Api.
 From RX.Spec Require Chars.
 From RX.Spec Require Cst.
-From RX.Proofs Require Import CharTablesProofs RejectProofs WfParseTok WfParseChars WfParse CstSound CstSoundDoc CstSoundCor TruncMain TruncDtdMain CstSoundU CstSoundUDoc CstSoundUCor.
-From RX.Spec Require CstU.
+From RX.Proofs Require Import CharTablesProofs RejectProofs WfParseTok WfParseChars WfParse CstSound CstSoundDoc CstSoundCor TruncMain TruncDtdMain CstSoundU CstSoundUDoc CstSoundUCor CstSoundT CstSoundTDoc CstSoundTCor.
+From RX.Spec Require CstU CstText.
 Open Scope N_scope.
 
 (* ---- Proofs/CharTablesProofs.v ---- *)
@@ -307,3 +310,22 @@ Theorem C08_parse_sound_and_complete_u :
     CstU.wf_doc c = true /\ CstU.render c = text /\ CstMain.view text d = CstU.sem c.
 Proof. exact parse_sound_and_complete_u. Qed.
 Print Assumptions C08_parse_sound_and_complete_u.
+
+(* ---- Proofs/CstSoundTDoc.v ---- *)
+Theorem C08_parse_sound_fragment_t :
+  forall text opt d,
+  in_fragment_t text = true -> parse text opt = Ok d ->
+  exists c : T.doc, T.wf_doc c = true /\ T.render c = text.
+Proof. exact parse_sound_fragment_t. Qed.
+Print Assumptions C08_parse_sound_fragment_t.
+
+(* ---- Proofs/CstSoundTCor.v ---- *)
+Theorem C08_parse_sound_and_complete_t :
+  forall text opt d,
+  in_fragment_t text = true -> parse text opt = Ok d ->
+  N.of_nat (length text) <= nodes_limit opt ->      (* room for all nodes *)
+  N.of_nat (length text) <= u32_max ->              (* the input is at most u32::MAX bytes long *)
+  exists c : CstText.doc,
+    CstText.wf_doc c = true /\ CstText.render c = text /\ CstMain.view text d = CstText.sem c.
+Proof. exact parse_sound_and_complete_t. Qed.
+Print Assumptions C08_parse_sound_and_complete_t.
